@@ -150,6 +150,7 @@ var c04Cfgs = []c04Cfg{
 	{def: c04Short},
 	{def: c04Short, pdl: 10 * time.Second},
 	{def: c04Huge, pdl: c04Short},
+	{def: c04Short, pdl: c04Huge}, // the caller's deadline is far later than now+timeout
 	{def: c04Huge, call: c04Short, hasCall: true},                  // per-call shorter than the default
 	{def: c04Short, call: c04Huge, hasCall: true},                  // per-call longer than the default
 	{def: c04Short, call: c04Huge, hasCall: true, pdl: c04Short},   // ... but the caller bounds it
